@@ -114,6 +114,36 @@ m("c03-revert-F3", None, "selftest/reverts/F3.patch", None, ["C03"])
 m("c03-len-floor", MM, "let byte_count = (bit_count / 8) + ((bit_count % 8 != 0) as usize);", "let byte_count = (bit_count / 8) + 1;", ["C03"])
 m("c03-second-mask-off-by-one", MM, "*byte &= 0xffu8 << (fill_bits - bits_in_final_byte);", "*byte &= 0xffu8 << (fill_bits - bits_in_final_byte + 1);", ["C03"])
 n("n-c03-fill-ge", MM, "if fill_bits > bits_in_final_byte {", "if fill_bits >= bits_in_final_byte {", ["C03"])
+# ---- C01
+m("c01-alphabet-47", MM, "48..=87 => byte - 48,", "47..=87 => byte - 48,", ["C01"])
+m("c01-bool-from-2-bits", S + "aid_to_navigation_report.rs", "let (data, off_position) = map(take_bits(1u8), u8_to_bool)(data)?;\n        let (data, regional_reserved) = take_bits(8u8)(data)?;", "let (data, off_position) = map(take_bits(2u8), u8_to_bool)(data)?;\n        let (data, regional_reserved) = take_bits(7u8)(data)?;", ["C01"])
+m("c01-messagelist-cap-1", S + "interrogation.rs", "pub type MessageList = lib::std::vec::Vec<Message, 3>;", "pub type MessageList = lib::std::vec::Vec<Message, 1>;", ["C01"])
+m("c01-take-10-into-u8-at-7", S + "base_station_report.rs", "let (data, epfd_type) = map(take_bits(4u8), EpfdType::parse)(data)?;\n        let (data, _spare) = take_bits::<_, u8, _, _>(10u8)(data)?;", "let (data, epfd_type) = map(take_bits(4u8), EpfdType::parse)(data)?;\n        let (data, _spare0) = take_bits::<_, u8, _, _>(5u8)(data)?;\n        let (data, _spare) = take_bits::<_, u8, _, _>(10u8)(data)?;", ["C01"])
+m("c01-revert-F1", SS, "ais_sentence.fragment_number.checked_sub(self.fragment_number) != Some(1)", "ais_sentence.fragment_number - self.fragment_number != 1", ["C01"])
+m("c01-revert-F3", None, "selftest/reverts/F3.patch", None, ["C01"])
+m("c01-revert-F4", None, "selftest/reverts/F4.patch", None, ["C01"])
+m("c01-signed-len-32", S + "long_range_ais_broadcast.rs", "|data| signed_i32(data, 17),", "|data| signed_i32(data, 32),", ["C01"])
+m("c01-remaining-bits-wrong-order", S + "parsers.rs", "data.0.len() * 8 - data.1", "data.0.len() * 8 - data.1 - 1", ["C01"])
+n("n-c01-checked-form", S + "parsers.rs", "data.0.len() * 8 - data.1", "(data.0.len() * 8).saturating_sub(data.1)", ["C01"])
+# ---- C18
+NN = S + "nom_noalloc.rs"
+m("c18-local-many-le", NN, "if count < min {", "if count <= min {", ["C18"])
+m("c18-acklist-cap-3", S + "safety_related_acknowledgment.rs", ["many_m_n::<_, _, _, _, 4>(1, Acknowledgement::parse)", "pub type AcknowledgementList = lib::std::vec::Vec<Acknowledgement, 4>;"], ["many_m_n::<_, _, _, _, 3>(1, Acknowledgement::parse)", "pub type AcknowledgementList = lib::std::vec::Vec<Acknowledgement, 3>;"], ["C18"])
+m("c18-silent-truncation", S + "binary_addressed.rs", "        let data_owned = data.0.try_into().map_err(|_| {\n            nom::Err::Failure(nom::error::Error::new(\n                data,\n                nom::error::ErrorKind::TooLarge,\n            ))\n        })?;", "        let data_owned = data.0[..data.0.len().min(MAX_DATA_SIZE_BYTES)].try_into().map_err(|_| {\n            nom::Err::Failure(nom::error::Error::new(\n                data,\n                nom::error::ErrorKind::TooLarge,\n            ))\n        })?;", ["C18"])
+m("c18-cfg-extra-bit", S + "utc_date_inquiry.rs", "let (data, _spare2) = take_bits::<_, u8, _, _>(2u8)(data)?;", "#[cfg(feature = \"std\")]\n        let (data, _spare2) = take_bits::<_, u8, _, _>(2u8)(data)?;\n        #[cfg(not(feature = \"std\"))]\n        let (data, _spare2) = take_bits::<_, u8, _, _>(10u8)(data)?;", ["C18"])
+m("c18-max-data-100", S + "binary_broadcast_message.rs", "const MAX_DATA_SIZE_BYTES: usize = 119;", "const MAX_DATA_SIZE_BYTES: usize = 100;", ["C18"])
+m("c18-noalloc-sixbit-63", S + "parsers.rs", "    #[cfg(all(not(feature = \"std\"), not(feature = \"alloc\")))]\n    match data {\n        0..=31 => Ok(data + 64),\n        32..=63 => Ok(data),", "    #[cfg(all(not(feature = \"std\"), not(feature = \"alloc\")))]\n    match data {\n        0..=31 => Ok(data + 64),\n        32..=62 => Ok(data),", ["C18"])
+m("c18-revert-F4", None, "selftest/reverts/F4.patch", None, ["C18"])
+# ---- C20
+BB = "src/bin/aisparser.rs"
+m("c20-revert-F7", None, "selftest/reverts/F7.patch", None, ["C20"])
+n("n-c20-map-err-form", BB, "parse_nmea_line(&mut parser, &line).unwrap_or_else(|err| {", "let _ = parse_nmea_line(&mut parser, &line).map_err(|err| {", ["C20"])
+m("c20-unwrap-line-result", BB, ["                parse_nmea_line(&mut parser, &line).unwrap_or_else(|err| {\n                    eprintln!(\n                        \"{:?}\\t{:?}\",\n                        lib::std::string::String::from_utf8_lossy(&line),\n                        err\n                    );\n                });"], ["                parse_nmea_line(&mut parser, &line).unwrap();"], ["C20"])
+m("c20-print-on-incomplete", BB, "    if let AisFragments::Complete(sentence) = sentence {", "    let sentence = match sentence { AisFragments::Complete(s) => AisFragments::Complete(s), AisFragments::Incomplete(s) => AisFragments::Complete(s) };\n    if let AisFragments::Complete(sentence) = sentence {", ["C20"])
+m("c20-take-100", BB, "            .split(b'\\n')\n", "            .split(b'\\n')\n            .take(100)\n", ["C20"])
+m("c20-err-to-stdout", BB, "                    eprintln!(", "                    println!(", ["C20"])
+m("c20-exit-on-error", BB, "                        err\n                    );", "                        err\n                    );\n                    std::process::exit(1);", ["C20"])
+m("c20-split-on-cr", BB, ".split(b'\\n')", ".split(b'\\r')", ["C20"])
 # ---- neutral edits
 n("n-t16-gt-51", S + "assignment_mode_command.rs", "if remaining_bits >= 52 {", "if remaining_bits > 51 {", ["C04", "C14"])
 n("n-t12-error-kind", S + "addressed_safety_related.rs", "nom::error::ErrorKind::Eof,", "nom::error::ErrorKind::Digit,", ["C04", "C14", "C09"])
@@ -136,9 +166,12 @@ def apply(tmp, file, old, new):
         return r.returncode == 0, r.stdout
     p = os.path.join(tmp, file)
     s = open(p).read()
-    if s.count(old) < 1:
-        return False, "pattern not found in " + file
-    open(p, "w").write(s.replace(old, new, 1))
+    pairs = list(zip(old, new)) if isinstance(old, list) else [(old, new)]
+    for o, n_ in pairs:
+        if s.count(o) < 1:
+            return False, "pattern not found in " + file
+        s = s.replace(o, n_, 1)
+    open(p, "w").write(s)
     return True, ""
 
 
@@ -166,6 +199,9 @@ def main():
                 line = []
                 for pid in props:
                     r = run("AIS_REPO=%s /verif/bin/check %s %s" % (tmp, pid, tier), env=dict(os.environ, VERIF_DIR="/verif/.work/selftest_out"))
+                    if "cannot build /repo" in r.stdout:
+                        line.append("%s:BUILD-FAIL" % pid)
+                        continue
                     fired = "VIOLATION property=%s" % pid in r.stdout
                     keys = re.findall(r"key=(\S+)", r.stdout)[:2]
                     if kind == "mutant":
@@ -176,7 +212,7 @@ def main():
             finally:
                 shutil.rmtree(tmp, ignore_errors=True)
             print(results[-1][0], "=>", results[-1][1], flush=True)
-    bad = [r for r in results if "MISSED" in r[1] or "FALSE-ALARM" in r[1] or "SETUP-FAIL" in r[1]]
+    bad = [r for r in results if "MISSED" in r[1] or "FALSE-ALARM" in r[1] or "SETUP-FAIL" in r[1] or "BUILD-FAIL" in r[1]]
     print("%d cases, %d problems" % (len(results), len(bad)))
     return 1 if bad else 0
 
